@@ -240,7 +240,7 @@ PROPS["C20"] = {
              "evaluations = requests sent; non-trivial phase = hits, fetches and passes all occurred and purges or reloads ran. Statistical: it can show races, not their absence."),
     "assumptions": _NETW_ASSUME + ["Go race detector (halt_on_error=0, log parsed by the test)", "schedules are whatever the runtime produces under load; nothing is replayable except the workload parameters"],
     "jobs": [{"engine": "netw", "race": True, "test": "TestC20", "solo": True, "env": {"GORACE": "log_path={cwd}/race halt_on_error=0", "VERIF_RACE_LOG": "{cwd}/race"},
-              "quick": {"shards": 1, "checks": 4, "timeout": 600, "shrinktime": "1s"}, "thorough": {"shards": 1, "checks": 60, "timeout": 3400, "shrinktime": "1s"}}],
+              "quick": {"shards": 1, "checks": 5, "timeout": 600, "shrinktime": "1s"}, "thorough": {"shards": 1, "checks": 60, "timeout": 3400, "shrinktime": "1s"}}],
 }
 
 _PROC_ASSUME = [
